@@ -20,6 +20,7 @@ func allPropsUnsorted() []*propInfo {
 				"C01.3 publish fans out over exactly the live subscriptions, the loop reaches deliverToSubscription for every element and has no early exit, every created builder is saved through CreateBulk on the transaction, and a delivery is skipped only for filtered subscriptions; " +
 				"C01.4 the pull selection has exactly {completed_at IS NULL, expires_at > now, subscription_id = verified sub, attempt_at <= now} (+ the ordering gate only for ordered subscriptions); " +
 				"C01.5 attempts / not_before_id have a single writer; C02.2 (shared) every update/delete of delivery rows is addressed by delivery id or scoped to the subscription resolved in the same operation. " +
+				"C04.9 (shared) no two predicate lists are appended to one spare-capacity base slice when both appends can run; C13.3 (shared) the snapshot watermark is the looked-up delivery's published_at itself. " +
 				"NOT decided: clock arithmetic (that attempt_at/expires_at values make a message due again), database semantics, the history-level claim itself.",
 			Assumptions: []string{k1Assumption, "database executes the statements as ent renders them"},
 			Rules: []ruleFn{
@@ -44,6 +45,7 @@ func allPropsUnsorted() []*propInfo {
 				"C02.2 every update/delete of delivery rows in the module is addressed by delivery id or scoped by subscription_id = <subscription resolved in the same operation> on every path; " +
 				"C02.3 message rows are immutable (no generated setter for content columns, no update statement on messages, created only by publish, deleted only by the completed-messages prune job); " +
 				"C02.4 content provenance (K9 data dependence): request field -> action parameter -> column -> pull result -> gRPC field, each depending on its own source field and on no other content field; MessageIds[i] is the id of the i-th stored message. " +
+				"C13.3 (shared) a snapshot records only its own subscription's deliveries; C02.4 also requires the stored payload and attributes to be the request's values unchanged. " +
 				"NOT decided: JSON value equality through jsonb/text storage, duplicates within one response (primary-key fact), histories.",
 			Assumptions: []string{k1Assumption, "protobuf/ent field names correspond one-to-one as in the generated code"},
 			Rules: []ruleFn{
@@ -62,7 +64,7 @@ func allPropsUnsorted() []*propInfo {
 				"C03.1 deliveries.completed_at is cleared only by the two seek actions; C03.2 the pull selection excludes completed rows on every path; " +
 				"C03.3 delivery rows are created only by deliverToSubscription, called only from publish and dead-letter forwarding (no path re-enqueues an acked message); " +
 				"C03.4 ack/nack/modify-deadline return only errors that originate from storage/helper calls (no self-made error for unknown, stale or foreign ids) and their bulk statements are addressed by id IN <ids>. " +
-				"C06.5 (shared) a nack selects only outstanding rows, so a late nack of an acked id neither forwards it to the dead-letter topic nor rewrites it. Deliberately not demanded: the completed_at IS NULL guard in modify-deadline (dropping it does not resurrect an acked message: the pull excludes completed rows). NOT decided: the history-level claim.",
+				"C06.5 (shared) a nack selects only outstanding rows, so a late nack of an acked id neither forwards it to the dead-letter topic nor rewrites it. Deliberately not demanded: the completed_at IS NULL guard in modify-deadline (dropping it does not resurrect an acked message: the pull excludes completed rows). C01.2 (shared) ack statements are keyed by exactly the request's ids; C03.5 ack ids are converted completely and in place or the request fails; C04.9 (shared) no aliased predicate appends; C09.2 / C09.3 (shared) commit errors are reported. NOT decided: the history-level claim.",
 			Assumptions: []string{k1Assumption},
 			Rules: []ruleFn{
 				{ID: "C04.9", Doc: "[alias] (shared) no predicate list is built by appending twice to one base slice with spare capacity", Run: ruleC04_9},
@@ -85,6 +87,7 @@ func allPropsUnsorted() []*propInfo {
 				"C04.2 the selection takes FOR UPDATE SKIP LOCKED on deliveries whenever the dialect is not SQLite (no other condition); " +
 				"C04.3 selection and lease update run on the same tx of one closure; each delivered element adds exactly 1 to attempts and sets attempt_at from the SAME element's deadline, which is now + NextDelayFor(sub, attempts+1) (+jitter); the update loop covers every delivered element; " +
 				"C04.4 modify-deadline carries `attempt_at < X` over the same X it sets, skipped only when Delay <= 0; C04.5 nack reschedules each delivery by now + the delay NextDelayFor(sub, d.Attempts) returned for that same delivery; C04.6 reported attempt = attempts + 1. " +
+				"C04.7 shape of NextDelayFor; C04.8 the stream adapter folds per-id deadlines with max; C04.9 no two predicate lists are appended to one base slice with spare capacity when both appends can run in one execution (the later append overwrites the earlier guard). " +
 				"NOT decided: the numeric backoff formula, jitter bound and saturation; PostgreSQL row-lock semantics; 'handed out again once the deadline has passed'.",
 			Assumptions: []string{k1Assumption, "FOR UPDATE SKIP LOCKED / SQLite immediate transactions give exclusivity (database semantics)"},
 			Rules: []ruleFn{
@@ -107,6 +110,7 @@ func allPropsUnsorted() []*propInfo {
 				"C05.3 the link is set whenever ordered ∧ keyed ∧ found and lookup errors other than not-found are returned; " +
 				"C05.4 every pull-side query carries the gate LEFT JOIN predecessor ∧ (no predecessor ∨ predecessor completed ∨ predecessor expired) under sub.OrderedDelivery and nothing else; " +
 				"C05.5 deliveries.not_before_id is ON DELETE SET NULL in the ent migrate schema and in the last SQL definition of the constraint. " +
+				"C01.5 (shared) re-opening mutators keep not_before; C05.6 a fresh clock reading per published message. " +
 				"NOT decided: ties of published_at inside one batch, interplay with seek-to-snapshot, the history-level order itself.",
 			Assumptions: []string{k1Assumption},
 			Rules: []ruleFn{
@@ -145,12 +149,14 @@ func allPropsUnsorted() []*propInfo {
 				"C12.4 unique (name, live) on topics and subscriptions and unique name on snapshots in the ent schema and in the SQL migrations; " +
 				"C12.5 each List handler's prefix kind equals its entity's name-validator kind, keyset pagination is consistent (ORDER BY id ASC, id > token only when a token is given, LIMIT pageSize, next token = last SCANNED row iff a full page was scanned); " +
 				"C12.6 project scoping is case-exact (every listed row passes strings.HasPrefix(row.Name, prefix) over the same prefix, or the SQL atom is case-exact). " +
+				"C12.2 also: nothing classifies the save error before the duplicate-key test in a way a unique violation can satisfy; the classifier answers yes exactly for SQLSTATE 23505 of a *pgconn.PgError or the SQLite sibling's verdict. " +
 				"NOT decided: races under PostgreSQL isolation levels, histories, 'inherits no backlog' beyond C12.3.",
 			Assumptions: []string{k1Assumption, "SQLite evaluates LIKE case-insensitively, PostgreSQL case-sensitively (documented behaviour)"},
 			Rules: []ruleFn{
 				{ID: "C12.1", Doc: "[atoms] live-only name resolution", Run: ruleC12_1, Ctrl: true},
 				{ID: "C12.2", Doc: "[dom] create: exists check, duplicate-key mapping, AlreadyExists", Run: ruleC12_2},
 				{ID: "C12.2", Doc: "[K5] error chain preserved (with %w) between the driver and the duplicate-key test", Run: ruleC12_2chain},
+				{ID: "C12.2", Doc: "[dom] the duplicate-key classifier says yes exactly for SQLSTATE 23505 / the SQLite sibling", Run: ruleC12_2classifier},
 				{ID: "C12.3", Doc: "[atoms][who] soft delete discipline", Run: ruleC12_3},
 				{ID: "C12.4", Doc: "[tab] unique indexes", Run: ruleC12_4},
 				{ID: "C12.5", Doc: "[tab][atoms] List siblings agree; keyset pagination; case-exact scoping (C12.6)", Run: ruleC12_5_6},
@@ -162,6 +168,7 @@ func allPropsUnsorted() []*propInfo {
 				"C13.1 seek-to-time = ack{published_at <= T} / re-open{published_at > T ∧ completed} over the same T = the requested time, both scoped to the resolved subscription, no further restricting atom, re-open sets {completed_at:clear, expires_at:=now+MessageTTL, attempt_at:=now}; " +
 				"C13.2 seek-to-snapshot = ack{< B} ∪ ack{IN L} / re-open{>= B ∧ NOT IN L ∧ completed} over the resolved snapshot's watermark B and id list L, every update scoped to the resolved subscription, same re-open mutators; " +
 				"C13.3 snapshot contents: B = published_at of the oldest outstanding delivery of the subscription, L = messages of the subscription's topic at/after B whose delivery on THIS subscription is completed (or absent). " +
+				"C13.3 also: the stored watermark is the published_at field of the looked-up delivery itself (no rounding, no other column). " +
 				"NOT decided: the set equality over histories; join semantics of the id-list query.",
 			Assumptions: []string{k1Assumption},
 			Rules: []ruleFn{
@@ -195,6 +202,7 @@ func allPropsUnsorted() []*propInfo {
 				"C15.1 each of the six prune jobs deletes exactly `id IN result` of a select whose atoms are exactly its justification (completed / expired / deleted-subscription deliveries; parentless messages, subscriptions, topics with NOT EXISTS children), with the age threshold computed as time.Now() − MinAge inside Execute; " +
 				"C15.2 referential actions: every foreign key is NO ACTION except not_before_id and dead_letter_topic_id (SET NULL), no CASCADE, in the ent schema and the SQL migrations; " +
 				"C15.3 every maintenance action constructor is registered as a background service, and the dead-letter sweep is registered; C15.4 the service loops wait on a ticker (or re-arm their timer on every path); C01.1 / C02.3 (shared) nothing else deletes delivery or message rows. " +
+				"C15.5 every child table of topics with a NO ACTION foreign key that no prune job deletes from (snapshots) is emptied by DeleteTopic with exactly `fk IN (ids)`. " +
 				"NOT decided: metamorphic equality of traces, convergence at the fixpoint.",
 			Assumptions: []string{k1Assumption},
 			Rules: []ruleFn{
@@ -235,6 +243,7 @@ func allPropsUnsorted() []*propInfo {
 				"C10.3 the broadcast loops of WakePublishListeners, wakeModifyListeners, WakeAllInternal and of the commit hooks have no exit other than their range condition; " +
 				"C10.4 every writer that can make a message deliverable (create delivery, zero/negative modify-deadline, seeks, ack, dead-letter, prune-expired) notifies the affected subscription on every successful path, skipping only when the mutation's own result is empty; " +
 				"C10.5 = C09.3 (wake after the commit, so the re-query sees the change); C10.6 the waiter/hook maps are accessed only with nmu held (K3 lockset); C10.7 each closed waiter channel is removed from its set under the same lock. " +
+				"C10.1 follows the wait into a private helper (every way out of the call is a possible wake edge); C10.4 the dead-letter step wakes the source subscription. " +
 				"NOT decided: latency ('promptly'), the PostgreSQL LISTEN/NOTIFY path, schedules as such.",
 			Assumptions: []string{k1Assumption, "Go channel close wakes every receiver; sync.Mutex semantics"},
 			Rules: []ruleFn{
@@ -251,6 +260,7 @@ func allPropsUnsorted() []*propInfo {
 			Explanation: "Static necessary conditions of 'no request can crash the server': a flow-sensitive abstract interpretation (K6: integer intervals, nilness, string emptiness, zero-time, booleans; bounded disjunctive states; request taint) of every implemented RPC method of publisherServer / subscriberServer / healthServer, inlining module-local callees that contain an explicit panic or receive a possibly-absent request sub-message, and the closures handed to the transaction runners. " +
 				"C16.1 no explicit panic (today: the precondition panics of the actions.New* constructors) is reachable for any request field values; C16.2 no request sub-message that may be absent is dereferenced (field access or non-nil-safe method) without a dominating nil test. " +
 				"C16.3 (rejected requests change nothing) = C09.1/C09.4/C09.5 evaluated under C09. " +
+				"C16.4 (K9b path-sensitive provenance through the transaction closure and clamping helpers) the effective page size of every List handler is >= 1 on every path. " +
 				"NOT decided: index/slice bounds in general, resource exhaustion, hangs, panics inside third-party code, requests arriving on a stream after the first (their fields are treated as unconstrained but their sub-messages are only checked when dereferenced in the handler itself).",
 			Assumptions: []string{
 				"gRPC never passes a nil request; elements of repeated message fields are non-nil (protobuf decoding)",
@@ -272,6 +282,7 @@ func allPropsUnsorted() []*propInfo {
 				"C11.3 the fetch limits are the client limits minus a complete walk over pending (−1 message, −size bytes each, strict-bytes iff anything pending); C11.4 every removal from pending is followed by a wake-up of the sender before the goroutine blocks again (a monotone flag is followed by constant propagation); " +
 				"C11.5 (K6 intervals) effectiveFlowControl returns limits >= 1 for every int64 input on amd64 (and 386 in the thorough tier), initial limits are positive constants; C11.6 an over-budget message is skipped without ending the scan and is never appended; the byte counter accumulates; " +
 				"C11.7 ids acked or nacked on the stream leave pending, and the refresh goroutine removes exactly the ids of its under-lock snapshot that the database no longer reports as outstanding, asking exactly `id IN snapshot ∧ completed_at IS NULL ∧ not expired`. " +
+				"C11.8 the client's limits reach FlowControl un-swapped; C11.9 the pull's result cell is written only by applyResults and never reset (a pull that found candidates answers instead of parking with a stale budget). " +
 				"NOT decided: the numeric invariant over interleavings, promptness.",
 			Assumptions: []string{k1Assumption, "sync.Mutex semantics; channel send on a buffered channel never blocks the waker"},
 			Rules: []ruleFn{
@@ -291,6 +302,7 @@ func allPropsUnsorted() []*propInfo {
 				"C18.1 the shared remaining count is accessed only through sync/atomic (plain reads only on by-value copies); C18.2 in Set.Check, with r the result of atomic.AddInt64(&d.Count,-1), the fault fires for r > 0 and r = 0 and, for r < 0, neither fires nor returns without re-matching (each sign decided separately on the CFG); " +
 				"C18.3 (K3 lockset) Set.faults is read under mu.RLock/Lock and written under mu.Lock; C18.4 Description.match returns true only with count > 0, equal operation, and every injected parameter present and equal; C18.5 prune/Current separate live from exhausted descriptions by count > 0; " +
 				"C18.6 the pooled parameter map of the gRPC interceptor is emptied unconditionally before the request's fields are written (also before a closure that writes it is handed out). " +
+				"C18.3 fresh-write: what is written to the fault table under the exclusive lock is computed inside that critical section (not from a shared-lock read or a helper that takes the mutex itself); C18.7 interceptor discipline. " +
 				"NOT decided: the exact count min(N, matches) over schedules (C18.1/2 are its memory-ordering and re-check conditions), request-to-parameter extraction for all messages.",
 			Assumptions: []string{"sync/atomic and sync.RWMutex semantics"},
 			Rules: []ruleFn{
@@ -310,6 +322,7 @@ func allPropsUnsorted() []*propInfo {
 				"C19.2 (K9) envelope fields derive from their delivery fields only (Data = base64(payload), Attributes, MessageId, OrderingKey, PublishTime, Subscription, DeliveryAttempt); " +
 				"C19.3 (K6 intervals) inductive invariant of the adaptive window: assuming maxMessages ∈ [1,1000] on entry of Receive every store keeps it there, initial value is a constant in range; " +
 				"C19.4 (K3) window state is accessed only under c.mu (the test-only reader CurrentFlowControl is the named exception); C19.5 Receive reports ids from the ack queues as Ack and ids from the nack queue as Nack. " +
+				"C11.4 / C11.7 (shared) the pusher's pending set is rebuilt completely from one query. " +
 				"NOT decided: 'never pushed again / pushed again after the backoff' (C03/C04 behaviour), concurrency <= window as a runtime count, out-of-order endpoints.",
 			Assumptions: []string{"net/http reports transport failures as a non-nil error from Client.Do"},
 			Rules: []ruleFn{
@@ -328,6 +341,7 @@ func allPropsUnsorted() []*propInfo {
 				"C07.2/3 (K7) every grammar type has an Evaluate method that reads every field the parser captures (no captured syntax is ignored); C07.4 the literals of the Op / Predicate grammar tags = the declared constants = the cases the evaluator handles; " +
 				"C07.5 the call closure of Evaluate is pure (no package variables, no map iteration, no side effects, only strings.HasPrefix / errors.New / fmt.Errorf outside the module); " +
 				"C07.6 (idiom-bound) leaf shapes: presence bit; presence ∧ ==/!= under the matching operator; presence ∧ strings.HasPrefix(attribute, prefix); XOR with Not; AND/OR chains end with the first deciding term; Condition combines the first term with the matching chain. " +
+				"C07.1 skip-only-by-verdict: deliverToSubscription skips a subscription only on the filter's verdict or the absence of a filter; C08.6 (shared) the printer keeps grouping parentheses. " +
 				"NOT decided: agreement with the documented Pub/Sub semantics over the infinite input space, boolean laws, precedence as implemented by participle.",
 			Assumptions: []string{"participle builds the parser the struct tags describe", k1Assumption},
 			Rules: []ruleFn{
@@ -347,6 +361,7 @@ func allPropsUnsorted() []*propInfo {
 				"C08.1 subscriptions.filter is written only by CreateSubscription.Execute and the UpdateSubscription handler, and every stored non-nil value is dominated by the nil-error edge of ParseString (or a wrapper whose every nil-error return is) on the same string; " +
 				"C08.2 (K9) the printer writes Name fields only through formatAttrName and Value fields only through strconv.Quote; C08.3 formatAttrName returns a name unquoted only if it is non-empty and every rune is '_' / letter / digit-not-in-first-position (idiom-bound); " +
 				"C08.4 (K7) every grammar type has an AsFilter method that reads every captured field; C08.6 a sub-condition is always printed between parentheses; C08.5 a stored filter that fails to parse skips the subscription instead of failing the publish. " +
+				"C08.7 package filter keeps no bounds check the compiler's prove pass cannot discharge (go build -gcflags=-d=ssa/check_bce over the analysed overlay; nothing is executed; today: none). " +
 				"NOT decided: 'accepted iff sentence of the documented grammar', parser totality/termination (third-party participle), full print/parse round-trip.",
 			Assumptions: []string{"participle builds the parser the struct tags describe; its lexer's identifier rule is text/scanner's (letter or '_' first, then letters/digits/'_')"},
 			Rules: []ruleFn{
@@ -364,7 +379,7 @@ func allPropsUnsorted() []*propInfo {
 			Explanation: "Static necessary conditions of 'configuration round-trips': " +
 				"C17.1 (K9 data dependence) every configuration field CreateSubscription accepts flows request → action parameter → its column, and every such column is read back by entSubscriptionToGrpc into the corresponding response field (labels, retention, expiration TTL, ordering flag, filter, retry policy, dead-letter policy, push endpoint; topics: labels); " +
 				"C17.2 update-mask locality: in UpdateSubscription / UpdateTopic the set of columns mutated under each mask path equals the frozen table, no column is mutated outside a mask path, unknown paths are rejected, and the no-op shortcut that skips the save checks every kind of mutation (set / cleared / added) the handler can apply; under a mask path with several stored columns every path sets or clears each of them (replace, not merge). " +
-				"C17.3 in the stored-duration codec no floating-point value computed from the parsed digits is truncated to an integer (a length-derived power of ten is exact and allowed; math.Round first is allowed) and a duration is never represented as a float (no Seconds/Minutes/Hours, FormatFloat/ParseFloat, or 64-bit-count-to-float conversion). NOT decided: the rest of the interval codec (all durations / all PostgreSQL interval strings — numeric), defaults' values, sequences of updates.",
+				"C17.3 in the stored-duration codec no floating-point value computed from the parsed digits is truncated to an integer (a length-derived power of ten is exact and allowed; math.Round first is allowed) and a duration is never represented as a float (no Seconds/Minutes/Hours, FormatFloat/ParseFloat, or 64-bit-count-to-float conversion). C17.1 independence: the response field fed by column X sits under a test of X only, never of a sibling column (except attempts under the dead-letter topic). NOT decided: the rest of the interval codec (all durations / all PostgreSQL interval strings — numeric), defaults' values, sequences of updates.",
 			Assumptions: []string{k1Assumption, "protobuf/ent field names correspond one-to-one as in the generated code"},
 			Rules: []ruleFn{
 				{ID: "C17.1", Doc: "[dep] create mapping is complete", Run: ruleC17_1},
